@@ -46,6 +46,9 @@ func genFunction(u *Universe, pi *PkgInfo, fc *FuncContract) (res *VerifyResult)
 	}
 	res.Fn = fn
 	name := shortPkg(pi.Path) + "." + contractKey(fn)
+	if i := strings.Index(fc.Name, "@"); i >= 0 {
+		name += fc.Name[i:] // scenario variant of the function's contract
+	}
 	defer func() {
 		if r := recover(); r != nil {
 			if ee, ok := r.(engineErr); ok {
@@ -199,7 +202,7 @@ func runFunction(vc *VC, u *Universe, pi *PkgInfo, fc *FuncContract, fn *ssa.Fun
 		}
 		found := false
 		for _, o := range vc.obls {
-			if strings.HasPrefix(o.Name, vc.fnName+"#callsite."+tag+".") {
+			if strings.HasPrefix(o.Name, vc.fnName+"#callsite."+tag+".") || o.Name == vc.fnName+"#callsite."+tag+".reach" {
 				found = true
 			}
 		}
